@@ -31,8 +31,9 @@ TSrv == /\ IsEvent("srv")
         /\ LET e == Rec[l]
                m == Dec[e.sb] IN
            /\ m.ok                       \* the reference server's bytes are a well-formed PDU
-           /\ e.res \in {"ok", "err"}    \* a panic / hang has no spec action; ok vs err is left free
-           /\ Srv(m)
+           /\ e.res \in {"ok", "err"}    \* a panic / hang has no spec action; ok vs err is left free ...
+           /\ (m.kind # "Train" /\ Letter(m) = "ULT") => (e.res = "err" /\ e.ek = "Disconnect")   \* ... except that the end of the session must be reported as such
+           /\ IF m.kind = "Train" THEN SrvTrain([k \in 1..Len(m.items) |-> m.items[k] @@ [channel |-> m.channel]]) ELSE Srv(m)
            /\ act' = e.state
            /\ out' = Writes(e)
            /\ cbs' = e.cb
